@@ -1021,6 +1021,52 @@ theorem C03_replace_keeps_priority (P : Params) (fuel : Nat) (s : S) (n i : Nat)
   · simp only [hv]
     rfl
 
+/-! ## several partners in one `connect` call -/
+
+/-- `a.connect(b₁, …, bₙ)` is the sequence `a.connect(b₁); …; a.connect(bₙ)` — nothing more (so `C03_recency`,
+`C03_stamp`, `C03_most_recent` speak about it): … -/
+theorem C03_connect_many_seq (P : Params) (s : S) (a b : Nat) (bs : List Nat) :
+    ((connectS P s a b).2 = none → connectMany P s a (b :: bs) = connectMany P (connectS P s a b).1 a bs) ∧
+    (∀ e, (connectS P s a b).2 = some e → connectMany P s a (b :: bs) = ((connectS P s a b).1, some e)) := by
+  rw [connectMany]
+  cases hc : connectS P s a b with
+  | mk s' r =>
+    cases r with
+    | none => exact ⟨fun _ => rfl, fun e he => (by cases he)⟩
+    | some e' => exact ⟨fun h => (by cases h), fun e he => (by cases he; rfl)⟩
+
+/-- … when all partners are new and accepted, the input's list begins with them in REVERSE order of the call: the
+last one listed is the most recently connected and has the highest fetch priority -/
+theorem C03_connect_many_order (P : Params) (s : S) (a : Nat) (bs : List Nat)
+    (hnew : ∀ b ∈ bs, b ∉ s.conns a) (hnd : bs.Nodup) (hne : ∀ b ∈ bs, b ≠ a)
+    (hok : (connectMany P s a bs).2 = none) :
+    (connectMany P s a bs).1.conns a = bs.reverse ++ s.conns a := by
+  induction bs generalizing s with
+  | nil => simp [connectMany]
+  | cons b bs ih =>
+    rw [connectMany] at hok ⊢
+    cases hc : connectS P s a b with
+    | mk s' e =>
+      rw [hc] at hok
+      cases e with
+      | some e => simp at hok
+      | none =>
+        simp only at hok ⊢
+        have hk : (connectS P s a b).2 = none := by rw [hc]
+        obtain ⟨heq, _⟩ := connectS_effective P s a b (hnew b (by simp)) hk
+        rw [hc] at heq
+        simp only at heq
+        have hba : b ≠ a := hne b (by simp)
+        have hs' : s'.conns a = b :: s.conns a := by rw [heq]; simp [updF, Ne.symm hba]
+        have hnd' := List.nodup_cons.mp hnd
+        rw [ih s' ?_ hnd'.2 (fun x hx => hne x (List.mem_cons_of_mem _ hx)) hok, hs']
+        · simp
+        · intro x hx hm
+          rw [hs'] at hm
+          rcases List.mem_cons.mp hm with rfl | hm
+          · exact hnd'.1 hx
+          · exact hnew x (List.mem_cons_of_mem _ hx) hm
+
 /-! ## concrete worlds (non-vacuity and the witness for the excluded operation) -/
 
 def exKind (c : Nat) : Kind := if c < 3 ∨ c = 20 ∨ c = 21 then .dataIn else .dataOut
@@ -1267,6 +1313,17 @@ theorem C03_replace_reversed_witness :
     (runAny exP 8 8 (replaceNode exP 8 rtS 0 [] []).1 0 []).1.calls = [(0, [.d 2, .d 100, .d 5])] := by
   decide
 
+/-! ### one call, several partners -/
+
+/-- `x.connect(10, 11)` on the fresh consumer: 11, listed last, is first in the list and wins the fetch; a `connect`
+that prepends its partners as one block in call order (seeded change C03-15) would put 10 first -/
+theorem C03_connect_many_witness :
+    (connectMany exP (Data.run exP 8 exInit [.set 10 (.d 1), .set 11 (.d 2)]) 0 [10, 11]).1.conns 0 = [11, 10] ∧
+    fetchVal (connectMany exP (Data.run exP 8 exInit [.set 10 (.d 1), .set 11 (.d 2)]) 0 [10, 11]).1 0 = .d 2 ∧
+    fetchVal { (Data.run exP 8 exInit [.set 10 (.d 1), .set 11 (.d 2)]) with
+      conns := fun c => if c = 0 then [10, 11] else [] } 0 = .d 1 := by
+  decide
+
 /-! ### witnesses for the two seeded variants -/
 
 /-- `rtS` with the node that owns upstream 11 in the middle of a run -/
@@ -1340,3 +1397,6 @@ end PwVerif.C03
 #print axioms PwVerif.C03.C03_replace_keeps_order
 #print axioms PwVerif.C03.C03_replace_keeps_priority
 #print axioms PwVerif.C03.C03_replace_reversed_witness
+#print axioms PwVerif.C03.C03_connect_many_seq
+#print axioms PwVerif.C03.C03_connect_many_order
+#print axioms PwVerif.C03.C03_connect_many_witness
